@@ -2,7 +2,9 @@ package main
 
 import (
 	"fmt"
+	"math/big"
 	"math/rand"
+	"os"
 	"strconv"
 	"strings"
 
@@ -12,6 +14,51 @@ import (
 
 func init() {
 	components["iter"] = iterComponent
+	replayers["itercount"] = func(f []string) string {
+		n, _ := strconv.ParseInt(f[1], 10, 64)
+		seed, _ := strconv.ParseInt(f[2], 10, 64)
+		_, _, out := runIterCount(n, seed)
+		return out
+	}
+	// iterfull: one complete turn of Next from a given state (startI = I), counted with a bitmap
+	replayers["iterfull"] = func(f []string) string {
+		v := make([]int64, 4)
+		for i := range v {
+			v[i], _ = strconv.ParseInt(f[1+i], 10, 64)
+		}
+		p, g, i, limit := v[0], v[1], v[2], v[3]
+		it := scan.VerifRangeIteratorAt(p, g, i, i, limit)
+		seen := make([]uint64, limit/64+1)
+		count, ok := int64(0), 1
+		if i <= limit {
+			count = 1
+			seen[i/64] |= 1 << uint(i%64)
+		}
+		for it.Next() {
+			x := it.Int()
+			if !x.IsInt64() || x.Int64() < 1 || x.Int64() > limit {
+				ok = 0
+			} else {
+				w := x.Int64()
+				if seen[w/64]&(1<<uint(w%64)) != 0 {
+					ok = 0
+				}
+				seen[w/64] |= 1 << uint(w%64)
+			}
+			count++
+			if count > limit+1 {
+				break
+			}
+		}
+		return fmt.Sprintf("%d %d", count, ok)
+	}
+	replayers["iterstep"] = func(f []string) string {
+		v := make([]int64, 6)
+		for i := range v {
+			v[i], _ = strconv.ParseInt(f[1+i], 10, 64)
+		}
+		return runIterStep(v[0], v[1], v[2], v[3], v[4], int(v[5]))
+	}
 	replayers["iter"] = func(f []string) string {
 		n, _ := strconv.ParseInt(f[1], 10, 64)
 		seed, _ := strconv.ParseInt(f[2], 10, 64)
@@ -108,4 +155,151 @@ func iterComponent(r *hx.Run) {
 	for _, n := range []int64{1 << 32, 1<<32 + 60, 1<<32 + 61, 1<<32 + 62, 1 << 40, 1<<63 - 1, -1 << 63} {
 		emit(n, r.Rng.Int63(), 500)
 	}
+	iterStepCases(r, groups)
+	iterCountCases(r, groups)
 }
+
+// runIterCount runs one COMPLETE iteration through the real constructor and counts: how many values
+// came out, whether all were in 1..n and pairwise distinct (bitmap).  Used for whole table rows, where
+// listing the values would be too much for the line protocol.
+func runIterCount(n int64, s int64) (r1, r2 int64, out string) {
+	rand.Seed(s)
+	r1, r2 = rand.Int63(), rand.Int63()
+	rand.Seed(s)
+	it, err := scan.VerifNewRangeIterator(n)
+	if err != nil {
+		if err == scan.VerifErrRangeSize {
+			return r1, r2, "E_RANGESIZE"
+		}
+		return r1, r2, "E_GROUP"
+	}
+	seen := make([]uint64, n/64+1)
+	count, ok := int64(0), 1
+	for {
+		v := it.Int()
+		if !v.IsInt64() || v.Int64() < 1 || v.Int64() > n {
+			ok = 0
+		} else {
+			w := v.Int64()
+			if seen[w/64]&(1<<uint(w%64)) != 0 {
+				ok = 0
+			}
+			seen[w/64] |= 1 << uint(w%64)
+		}
+		count++
+		if !it.Next() || count > n+1 {
+			break
+		}
+	}
+	return r1, r2, fmt.Sprintf("%d %d", count, ok)
+}
+
+// iterCountCases: for every table row up to a size bound, the largest range it serves (n = P-1) and
+// the smallest (previous P), iterated completely.  This is where a table row whose generator has a
+// short orbit shows up as a concrete (n, draws) with values missing.
+func iterCountCases(r *hx.Run, groups [][3]int64) {
+	maxP := int64(1) << 22
+	if r.Tier == "thorough" {
+		maxP = 1 << 26
+	}
+	if os.Getenv("VERIF_SEARCH") == "1" {
+		maxP = 1 << 28
+	}
+	prev := int64(1)
+	for ri, g := range groups {
+		if g[0] <= maxP+100 && g[0] > 1<<12 {
+			for _, n := range []int64{g[0] - 1, prev} {
+				seed := r.Rng.Int63()
+				r1, r2, out := runIterCount(n, seed)
+				r.Count("count-row" + strconv.Itoa(ri))
+				r.Case(fmt.Sprintf("count/row%d", ri), "itercount", hx.Itoa(n), hx.Itoa(seed), hx.Itoa(r1), hx.Itoa(r2), out)
+			}
+		}
+		prev = g[0]
+	}
+}
+
+// runIterStep drives Next from a given state (hook VerifRangeIteratorAt) for up to k calls.
+func runIterStep(p, g, i, startI, limit int64, k int) string {
+	it := scan.VerifRangeIteratorAt(p, g, i, startI, limit)
+	var vals []string
+	complete := 0
+	for j := 0; j < k; j++ {
+		if !it.Next() {
+			complete = 1
+			break
+		}
+		vals = append(vals, it.Int().String())
+	}
+	return fmt.Sprintf("OK %d %s", complete, strings.Join(vals, ","))
+}
+
+// draws of the random source (r1) whose randomised generator of the 2^32+61 group lies within 61 of
+// 2^32 — found once by exhaustive search over r1 < 4*10^8 on the pinned table; they are ordinary
+// values of rand.Int63(), i.e. REACHABLE states, and they are the only ones in which a 64-bit product
+// I*G can exceed 2^64.  The harness recomputes G' from the CURRENT table, so after a table edit they
+// are simply some other reachable draws.
+var nearWordDraws = []int64{43470407, 69884793, 108802508, 192938616, 213503244, 344285517, 362161937}
+
+// iterStepCases: Next on boundary states.  Every state is reachable: G' = G^(N^(r1+1) mod (P-1)) mod P
+// for a draw r1, I and startI are elements of the group (G' generates it), limit = n < P.
+func iterStepCases(r *hx.Run, groups [][3]int64) {
+	steps := 40
+	perRow := 6
+	scanK := 3000
+	if r.Tier == "thorough" {
+		perRow, scanK = 30, 200000
+	}
+	for ri, grp := range groups {
+		if grp[0] < 16 {
+			continue // tiny groups are enumerated exhaustively by the main cases
+		}
+		P, G, N := big.NewInt(grp[0]), big.NewInt(grp[1]), big.NewInt(grp[2])
+		pm1 := new(big.Int).Sub(P, big.NewInt(1))
+		gen := func(r1 int64) int64 {
+			e := new(big.Int).Exp(N, big.NewInt(r1+1), pm1)
+			return new(big.Int).Exp(G, e, P).Int64()
+		}
+		// draws: a few small ones, random ones, and the draw (among the first scanK) whose G' is largest
+		draws := []int64{0, 1, 2}
+		best, bestG := int64(0), int64(0)
+		e := new(big.Int).Set(N)
+		for k := int64(1); k <= int64(scanK); k++ {
+			g := new(big.Int).Exp(G, e, P).Int64()
+			if g > bestG {
+				best, bestG = k-1, g
+			}
+			e.Mul(e, N).Mod(e, pm1)
+		}
+		draws = append(draws, best)
+		for j := 0; j < perRow; j++ {
+			draws = append(draws, r.Rng.Int63())
+		}
+		if ri == len(groups)-1 {
+			draws = append(draws, nearWordDraws...)
+		}
+		for _, r1 := range draws {
+			g := gen(r1)
+			p := grp[0]
+			// current elements: top of the group, around powers of two below P, random
+			cur := []int64{p - 1, p - 2, p / 2, p/2 + 1, 1 + r.Rng.Int63n(p-1)}
+			for _, b := range []uint{16, 31, 32} {
+				if int64(1)<<b < p {
+					cur = append(cur, int64(1)<<b, int64(1)<<b-1, int64(1)<<b-3)
+				}
+			}
+			for _, i := range cur {
+				limit := p - 1 - r.Rng.Int63n(3)
+				if r.Rng.Intn(3) == 0 {
+					limit = 1 + r.Rng.Int63n(p-1)
+				}
+				startI := 1 + r.Rng.Int63n(limit)
+				out := runIterStep(p, g, i, startI, limit, steps)
+				r.Count("step-row" + strconv.Itoa(ri))
+				r.Case(fmt.Sprintf("step/row%d/g%d", ri, bitLen(g)), "iterstep", hx.Itoa(p), hx.Itoa(g), hx.Itoa(i), hx.Itoa(startI), hx.Itoa(limit), hx.Itoa(steps), out)
+			}
+		}
+	}
+}
+
+func bitLen(v int64) int { return big.NewInt(v).BitLen() }
